@@ -82,6 +82,10 @@ def corpus():
              setup=[disc, W.qlt(OWN, MAPPER, 3, 0x0E, 0), W.qlt(OWN, MAPPER, 4, 0x0E, P), W.qlt(OWN, MAPPER, 5, 0x0E, 2 * P)],
              request=[W.qlt(OWN, MAPPER, 6, 0x0E, 100), W.qlt(OWN, MAPPER, 7, 0x0E, 0), W.qlt(OWN, MAPPER, 8, 0x0E, 2 * P), W.qlt(OWN, MAPPER, 9, 0x0E, 3000)],
              post=[W.qlt(OWN, MAPPER, 10, 0x0E, 0), W.qlt(OWN, MAPPER, 11, 0x0E, P)]),
+        dict(name="qlt-icon-asked-again-a-minute-later", wifi=0, mtu=1500,
+             setup=[disc, W.qlt(OWN, MAPPER, 3, 0x0E, 0), W.qlt(OWN, MAPPER, 4, 0x0E, P), W.qlt(OWN, MAPPER, 5, 0x0E, 2 * P)], pre_ops=["ADV 61000"],
+             request=[W.qlt(OWN, MAPPER, 6, 0x0E, 100), W.qlt(OWN, MAPPER, 7, 0x0E, 0), W.qlt(OWN, MAPPER, 8, 0x0E, 2 * P)],
+             post=[W.qlt(OWN, MAPPER, 10, 0x0E, 0)]),
         dict(name="qlt-offset-past-end", wifi=0, mtu=1500, setup=[disc],
              request=[W.qlt(OWN, MAPPER, 3, 0x0E, 0x7FFF), W.qlt(OWN, MAPPER, 4, 0x11, 0x7FFF), W.qlt(OWN, MAPPER, 5, 0x13, 65)]),
     ]
